@@ -327,11 +327,22 @@ Definition close_all (E : env) (flags : list (option bool)) (m : merged) : outco
   mkOutcome flags (close_suffrage E m) (close_cands E m) (close_policy m)
             (sort_nat (m_suf_ops m)) (sort_nat (m_cand_ops m)) (sort_nat (m_pol_ops m)).
 
+(* Writer.Manifest fails ("empty nodes") when the operations tree was sized for n > 0 entries but no
+   entry got a slot (every operation of the proposal skipped): no block is produced *)
+Definition no_slot (ops : list op) (flags : list (option bool)) : bool :=
+  match ops with
+  | [] => false
+  | _ => forallb (fun f => match f with None => true | Some _ => false end) flags
+  end.
+
 (* one block: PreProcess in list order, Process, merge in list order (the canonical schedule; C10
-   proves every other completion order gives the same outcome), close.  None = Go panic. *)
+   proves every other completion order gives the same outcome), close.
+   None = no block: Go panic (op_wf) or Process returns an error (no_slot). *)
 Definition block (E : env) (ops : list op) : option outcome :=
   if forallb op_wf ops
-  then Some (close_all E (flags_from E pst0 ops) (merge_all (merge_values E (accepted E ops))))
+  then let flags := flags_from E pst0 ops in
+       if no_slot ops flags then None
+       else Some (close_all E flags (merge_all (merge_values E (accepted E ops))))
   else None.
 
 (* the resulting suffrage: the new value if the block changed it, else the prior one *)
